@@ -54,6 +54,7 @@ pub fn generate_rust_stub(schema: &str, target: &Path) -> anyhow::Result<()> {
 
     ensure_no_vertex_name_conflicts(&querying_schema, schema_adapter.clone());
     ensure_no_field_name_conflicts_on_vertex_type(&querying_schema, schema_adapter.clone());
+    ensure_no_entrypoint_name_conflicts(&querying_schema, schema_adapter.clone());
 
     make_vertex_file(&querying_schema, schema_adapter.clone(), &mut stub.vertex);
     make_entrypoints_file(
@@ -436,6 +437,39 @@ fn ensure_no_vertex_name_conflicts(querying_schema: &Schema, adapter: Arc<Schema
         if let Some(v) = v {
             panic!(
                 "cannot generate adapter for a schema containing both '{}' and '{}' vertices, consider renaming one of them",
+                v, row.name
+            );
+        }
+    }
+}
+
+fn ensure_no_entrypoint_name_conflicts(querying_schema: &Schema, adapter: Arc<SchemaAdapter<'_>>) {
+    let query = r#"
+{
+    Entrypoint {
+        name @output
+    }
+}"#;
+    let variables: BTreeMap<String, String> = Default::default();
+
+    #[derive(Debug, PartialEq, Eq, PartialOrd, Ord, serde::Deserialize)]
+    struct ResultRow {
+        name: String,
+    }
+
+    let mut rows: Vec<_> = trustfall::execute_query(querying_schema, adapter, query, variables)
+        .expect("invalid query")
+        .map(|x| x.try_into_struct::<ResultRow>().expect("invalid conversion"))
+        .collect();
+    rows.sort_unstable();
+
+    // Each entrypoint becomes a function named after its lower-snake-case form.
+    let mut uniq: HashMap<String, String> = HashMap::new();
+    for row in rows {
+        let converted = escaped_rust_name(to_lower_snake_case(&row.name));
+        if let Some(v) = uniq.insert(converted, row.name.clone()) {
+            panic!(
+                "cannot generate adapter for a schema containing both '{}' and '{}' as entrypoint names, consider renaming one of them",
                 v, row.name
             );
         }
